@@ -24,8 +24,19 @@
       which rules sharing an expression differ in backtracking_enabled) leave;
       deleting the rule set cleans its source ([C06_delete_cleans]);
     - [no_guard_fx fx ops] the coarse, history-global form: no guard of a finding
-      that the code [fx] has fires anywhere in [ops]. *)
+      that the code [fx] has fires anywhere in [ops];
+    - (last part of this file) [t_run_fx all_fix ops] the repository over the TRANSCRIBED
+      COMPRESSED RADIX TREE of C06/Tree.v (tree.go function by function: addNode,
+      splitCommonPrefix, delNode, deleteChild, findNode; the model the implementation is
+      compared with on every run) after the history [ops]; [t_step], [t_find_rule] one
+      operation / one lookup on it; [t_rel t d] the tree [t] and the abstract index [d]
+      hold, pattern by pattern, the same values and flag, the key names of a tree node are
+      those of its values, and [t] is well-formed: the kind flags of its nodes agree with
+      the slots they hang in ([flags_ok]) and the tree satisfies the shape invariant of
+      Find / Add ([wfb], Radix/Tree.v) and of Delete ([shape], C06/TreeDel.v). *)
 From HV Require Import Base.Prelude C06.Pat C06.Model C06.Spec C06.Tree C06.ReprFacts C06.Proofs C06.Witness.
+From HV Require Import C06.RepoSim C06.TreeBridge C06.TreeTheorems.
+From HV Require Radix.Spec Radix.Machine Radix.Tree Radix.TreeAddProofs C06.TreeDel C06.TreeDelProofs.
 
 (** THE TREE AS IT IS NOW: when no source is left in the state C06-F1 / C06-F2
     leave, the index after the history is the index of a fresh load of the current
@@ -175,3 +186,89 @@ Example C06_nonvacuous :
    length (index (run all_fix w_reset)) = 2 /\ m_answer (run all_fix w_reset) 0 "/x" = Some 2).
 Proof. vm_compute. repeat split; reflexivity. Qed.
 Print Assumptions C06_nonvacuous.
+
+(** ** THE COMPRESSED RADIX TREE.  Everything above is about the repository over the abstract
+    pattern-map index; the following theorems carry it down to the transcription of tree.go
+    (node compression, prefix splits in addNode, child pruning and merging in deleteChild,
+    wildcard key names), for the code as it is now (repairs 2d9cd1f, 003095f, f6ce52b). *)
+
+(** one Tree.Add of a route: same outcome (applied / invalid path / constraint violated) on the
+    tree and on the abstract index, and the relation - which includes the tree invariant - is kept *)
+Theorem C06_tree_add_refines : forall t d v,
+  t_rel t d -> osim t_rel (t_add1 t v) (m_add1 d v).
+Proof. exact t_add1_sim. Qed.
+Print Assumptions C06_tree_add_refines.
+
+(** one Tree.Delete of a route with a valid path expression (the repository only deletes
+    routes it has added): it fails on the tree iff it fails on the abstract index; otherwise
+    the relation - with the invariant, through child pruning and node merging - is kept *)
+Theorem C06_tree_delete_refines : forall t d r v,
+  t_rel t d -> valid v -> osim t_rel (t_del1 all_fix t r v) (m_del1 all_fix d r v).
+Proof. exact t_del1_sim. Qed.
+Print Assumptions C06_tree_delete_refines.
+
+(** the same at the level of the radix tree alone, for any type of values: on a tree that
+    satisfies the invariant, Delete of a valid expression is the pattern-map machine's delete
+    on the abstraction of the tree, and the invariant is preserved *)
+Theorem C06_radix_delete_refines_machine : forall (V : Type) (matcher : V -> bool) (t : Radix.Tree.tree V) e p ks,
+  C06.TreeDel.wfd t = true -> Radix.Spec.parse_expr e = Some (p, ks) ->
+  match C06.TreeDel.tree_delete matcher t e with
+  | None => Radix.Machine.delete (Radix.Tree.abs t) p matcher = Radix.Machine.DFailed
+  | Some t' =>
+    C06.TreeDel.wfd t' = true /\
+    exists d', Radix.Machine.delete (Radix.Tree.abs t) p matcher = Radix.Machine.DOk d' /\
+               Radix.TreeAddProofs.same_entries V (Radix.Tree.abs t') d'
+  end.
+Proof. exact C06.TreeDelProofs.tree_delete_refines. Qed.
+Print Assumptions C06_radix_delete_refines_machine.
+
+(** after EVERY history of rule-set creations / updates / deletions the transcribed tree is
+    well-formed ... *)
+Theorem C06_tree_invariant : forall ops,
+  flags_ok (index (t_run_fx all_fix ops)) = true /\
+  C06.TreeDel.wfd (emb (index (t_run_fx all_fix ops))) = true.
+Proof. exact tree_invariant. Qed.
+Print Assumptions C06_tree_invariant.
+
+(** ... and the repository over it behaves like the repository over the abstract index: same
+    known rules, every lookup finds the same rule, every further operation has the same
+    outcome (no hypothesis on the history: also through C06-F1 / F2 / F6) *)
+Theorem C06_tree_refines_index : forall ops,
+  known (t_run_fx all_fix ops) = known (run all_fix ops) /\
+  (forall path (conditions : route -> bool),
+     t_find_rule false (index (t_run_fx all_fix ops)) path conditions =
+     find_rule false (index (run all_fix ops)) path conditions) /\
+  (forall o, snd (t_step all_fix (t_run_fx all_fix ops) o) = snd (step all_fix (run all_fix ops) o)).
+Proof. exact tree_refines_index. Qed.
+Print Assumptions C06_tree_refines_index.
+
+(** hence the main theorem holds of the compressed tree: when no source is left in the state
+    C06-F1 / C06-F2 leave, every request, under every outcome of the rules' conditions, finds in
+    the tree that went through the history the rule it finds in a tree freshly loaded with the
+    current rule sets *)
+Theorem C06_tree_history_equals_fresh : forall ops,
+  wf_history ops = true -> guard_dupid ops = false -> dirty ops = [] ->
+  forall path (conditions : route -> bool),
+    t_find_rule false (index (t_run_fx all_fix ops)) path conditions =
+    t_find_rule false (index (t_run_fx all_fix (fresh_ops (current ops)))) path conditions.
+Proof. exact tree_history_equals_fresh. Qed.
+Print Assumptions C06_tree_history_equals_fresh.
+
+(** no operation of any history ends in a Go run-time panic of the tree code (cf.
+    [C06_F4_pinned_panic] for the pinned commit) *)
+Theorem C06_tree_never_panics : forall ops o,
+  snd (t_step all_fix (t_run_fx all_fix ops) o) <> Some EPanic.
+Proof. exact tree_never_panics. Qed.
+Print Assumptions C06_tree_never_panics.
+
+(** non-vacuity of the Delete side: an update that removes a rule prunes a whole subtree
+    (static, single-wildcard and free-wildcard nodes) and merges the node "ab" with its
+    remaining child "c": the tree becomes, node by node, the freshly loaded one *)
+Example C06_tree_prune_merge_example :
+  let ops := [Add 0 [mkd 0 0 false [] ["/abc"; "/ab"]; mkd 1 0 false [] ["/abd"; "/x/:id/y"; "/x/*rest"]];
+              Update 0 [mkd 0 0 false [] ["/abc"; "/ab"]];
+              Update 0 [mkd 0 1 false [] ["/abc"]]]%string in
+  index (t_run_fx all_fix ops) = index (t_run_fx all_fix [Add 0 [mkd 0 1 false [] ["/abc"%string]]]) /\
+  index (t_run_fx all_fix (firstn 2 ops)) <> index (t_run_fx all_fix (firstn 1 ops)).
+Proof. vm_compute. split; [reflexivity | discriminate]. Qed.
+Print Assumptions C06_tree_prune_merge_example.
